@@ -24,7 +24,7 @@ macro_rules! elem_float {
             // identities 2 and 5 are the infinities (valid, non-missing values at the extremes of the type)
             fn from_id(id: i64) -> Self { if id == 0 { <$t as AnyNan>::any_nan() } else if id == 2 { <$t>::INFINITY } else if id == 5 { <$t>::NEG_INFINITY } else { id as $t } }
             fn to_id(&self) -> i64 { if <$t>::is_nan(*self) { 0 } else if *self == <$t>::INFINITY { 2 } else if *self == <$t>::NEG_INFINITY { 5 } else { *self as i64 } }
-            fn nn_to_id(x: &Self::NotNan) -> i64 { let v = x.raw(); if v == <$t>::INFINITY { 2 } else if v == <$t>::NEG_INFINITY { 5 } else { v as i64 } }
+            fn nn_to_id(x: &Self::NotNan) -> i64 { let v = x.raw(); if <$t>::is_nan(v) { -99 } else if v == <$t>::INFINITY { 2 } else if v == <$t>::NEG_INFINITY { 5 } else { v as i64 } }
             fn nn_back(x: &Self::NotNan) -> Self { <$t as MaybeNan>::from_not_nan(*x) }
         }
     };
